@@ -131,7 +131,7 @@ func stepSeq(q *coalesce.Queue, m *qmodel, o sop, st *seqStats) (mm *finding) {
 		case !pending:
 			why = "stuck-after-cancel"
 		}
-		if why == "stuck-after-cancel" && stuckSeen.Load() >= 2 {
+		if why == "stuck-after-cancel" && stuckSeenSeq.Load() >= 2 {
 			return &finding{sig: "skip"}
 		}
 		item, dups, err, returned := guardedNext(q, ctx)
@@ -142,7 +142,7 @@ func stepSeq(q *coalesce.Queue, m *qmodel, o sop, st *seqStats) (mm *finding) {
 			if dump == "" {
 				return &finding{sig: "inconclusive", what: "watchdog: sequential Next did not return but no goroutine is parked in Next"}
 			}
-			stuckSeen.Add(1)
+			stuckSeenSeq.Add(1)
 			return &finding{why, fmt.Sprintf("Next (single goroutine, pending items per model: %d, closed: %v, context cancelled before the call: %v) has not returned for >= %v; goroutine: %s", len(m.order), m.closed, ctx.Err() != nil, grace, dump)}
 		}
 		if o.Kind == "nextc" && pending && err != nil && !coalesce.IsClosedQueue(err) && ctx.Err() != nil {
